@@ -13,6 +13,7 @@ ITEMS = ["a", "b", "\n"] + ["\x1b[%dm" % c for c in CODES] + ["\x1b[m"]
 
 class C05(PureCheck):
     pid = "C05"
+    subst_every = 6
     warm_every = 4
     rule = ("round trip: the attribute records of C01 (quick: all 5,184 without explicit False + sampled False variants; "
             "thorough: all 59,049) with texts containing newline/tab/CR/wide/combining characters, plus multi-run values, plus every C0 (without ESC) / DEL / C1 (without CSI) control character first, inside and last in a run next to escape sequences; "
